@@ -97,6 +97,7 @@ CORE = ["AddParagraph", "AddHeading", "AddMathFormula", "AddListItem", "AddFootn
         "GenerateTOC", "SetTitle", "UpdateStatistics", "AddHeader", "AddFooterWithPageNumber", "AddFormattedHeader",
         "AddImage", "AddCellImage", "AddImageText", "AddStyle", "RemoveStyle", "SetFootnoteConfig", "RemoveFootnote", "PageSet",
         "AddTemplateBits", "Render", "RenderText", "ConvertMd", "Reopen", "Save", "ToBytes", "RemoveParagraphAt", "UpdateTOC"]
+CORE_Q = [o for o in CORE if o not in ("RemoveStyle", "UpdateTOC", "RemoveParagraphAt", "PageSet", "GenerateTOC", "UpdateStatistics")]
 SMALL = ["AddHeader", "AddImage", "AddFootnote", "SetTitle", "AddTemplateBits", "Render", "Reopen"]
 SMALL_T = SMALL + ["AddParagraph", "ToBytes", "AddListItem", "AddEndnote", "RenderText", "Save", "AddCellImage"]
 
@@ -108,9 +109,9 @@ def plans(seed, q):
         # (Render: of a template document that holds placeholders in body, table, header, footer)
         ("single", ALLOPS, WIDE, 1, (), (), False),
         # every pair over the core alphabet
-        ("pairs", CORE, small(seed), 2, (), (), True),
+        ("pairs", CORE_Q if q else CORE, small(seed), 2, (), (), not q),
         # every triple over the small alphabet
-        ("triples", SMALL if q else SMALL_T, small(seed + 1), 3, (), (), q is False),
+        ("triples", SMALL if q else SMALL_T, small(seed + 1), 3, (), (), True),
     ]
     if not q:
         P += [
@@ -177,7 +178,7 @@ def pipeline(ctx, replay_case=None):
         pools = small(r, TextC=rot(TEXTS, r, 2) | rot(HOSTILE, r), FmtC=rot(FMTS, r, 2), NameC=rot(NAMES, r, 2),
                       KindC={"default", "first", "even"}, RenderImgC={"none", "png"}, ReopenC={"mem", "file"}, PrepC={True, False})
         cs = ctx.tlc_gen("Pkg_MC.tla", gencfg(ctx, "gen_sim%d.cfg" % k, ALLOPS, pools, d, last=["ToBytes", "Save"]),
-                         "sim%d" % k, mode="sim", num=25 if q else 100, depth=d + 1, seed_off=k, limit=60 if q else 300)
+                         "sim%d" % k, mode="sim", num=20 if q else 100, depth=d + 1, seed_off=k, limit=40 if q else 300)
         for c in cs:
             c["extra"] = {"lazy": True}
         allc += cs
